@@ -65,25 +65,29 @@ class GlyphReuseCache:
             return None
 
         norm_path = normalize(SVGPath(d=path), self._normalize_tolerance).d
-        if norm_path not in self._reusable_paths:
-            return None
-
-        glyph_name, glyph_path = self._reusable_paths[norm_path]
-        affine = affine_between(
-            SVGPath(d=glyph_path), SVGPath(d=path), self._reuse_tolerance
-        )
-        if affine is None:
-            logging.warning("affine_between failed: %s %s ", glyph_path, path)
-            return None
-
-        # https://github.com/googlefonts/nanoemoji/issues/313 avoid out of bounds affines
-        if not fixed_safe(*affine):
-            logging.warning(
-                "affine_between overflows Fixed: %s %s, %s", glyph_path, path, affine
+        # several shapes can share a normal form without being copies of each other
+        # (it is rounded more coarsely than reuse_tolerance), try each of them
+        for glyph_name, glyph_path in self._reusable_paths.get(norm_path, ()):
+            affine = affine_between(
+                SVGPath(d=glyph_path), SVGPath(d=path), self._reuse_tolerance
             )
-            return None
+            if affine is None:
+                logging.warning("affine_between failed: %s %s ", glyph_path, path)
+                continue
 
-        return ReuseResult(glyph_name, affine)
+            # https://github.com/googlefonts/nanoemoji/issues/313 avoid out of bounds affines
+            if not fixed_safe(*affine):
+                logging.warning(
+                    "affine_between overflows Fixed: %s %s, %s",
+                    glyph_path,
+                    path,
+                    affine,
+                )
+                continue
+
+            return ReuseResult(glyph_name, affine)
+
+        return None
 
     def add_glyph(self, glyph_name, glyph_path):
         assert glyph_path.startswith("M"), f"{glyph_path} doesn't look like a path"
@@ -91,7 +95,7 @@ class GlyphReuseCache:
             norm_path = normalize(SVGPath(d=glyph_path), self._normalize_tolerance).d
         else:
             norm_path = glyph_path
-        self._reusable_paths[norm_path] = (glyph_name, glyph_path)
+        self._reusable_paths.setdefault(norm_path, []).append((glyph_name, glyph_path))
         self._known_glyphs.add(glyph_name)
 
     def is_known_glyph(self, glyph_name):
